@@ -16,7 +16,7 @@ import sim as simlib
 from props.c05 import CFG, split_messages
 
 FINDING_SILENT = "C08-closing-waits-for-silent-peer"
-CAUSES = ["local", "dpr", "eof", "refused", "eof-setup", "local-silent", "dpr-bad"]
+CAUSES = ["local", "dpr", "eof", "refused", "eof-setup", "local-silent", "dpr-bad", "reset", "reset"]
 POINTS = ["idle", "queued-out", "queued-in", "busy"]
 LIB_THREADS = ("psm_thread", "transport_layer_thread", "recv_message_monitor")
 
@@ -94,6 +94,8 @@ def scenario(seed, cause, point, consumer, lines, restart=True):
                         obs["close_exc"] = type(e).__name__
                 elif cause == "eof":
                     sock.eof = True
+                elif cause == "reset":
+                    sock.recv_error = ConnectionResetError(104, "Connection reset by peer")
                 elif cause == "dpr":
                     sock.inbox.append(DPR(origin_host="peer.h", origin_realm="peer.r").dump())
                 elif cause == "dpr-bad":
@@ -235,7 +237,7 @@ def run(chk):
     chk.lean = core.lean_build(["BromeliaVerif.Properties.C08"])
     chk.rule = ("the real client node under the simulation scheduler; termination causes {local close answered with a DPA, local close "
                 "with a silent peer, valid DPR, DPR with another Disconnect-Cause, abrupt disconnect while open, disconnect during the "
-                "capabilities exchange, refused connection} x points {idle, queued outbound, queued inbound, both} x consumer blocked "
+                "capabilities exchange, connection reset (recv raising ECONNRESET), refused connection} x points {idle, queued outbound, queued inbound, both} x consumer blocked "
                 "in get_message() or not; seeded random schedules (timed waits fire with probability 0.05 per step), 20% with "
                 "hand-over before every source line of transport.py / setup.py / statemachine.py. After the cause: reported state, "
                 "socket closed, the three library threads finished, consumer returned, send on the closed node raises, second start() "
